@@ -53,6 +53,8 @@ type loopInfo struct {
 }
 
 type Gen struct {
+	usedSites map[string]bool
+	sitePos   token.Pos
 	eng    *Engine
 	fn     *ssa.Function
 	ct     *Contract
@@ -93,6 +95,13 @@ type retPoint struct {
 	st      *State
 	results []string
 	prefix  int
+}
+
+func (g *Gen) markSite(k string) {
+	if g.usedSites == nil {
+		g.usedSites = map[string]bool{}
+	}
+	g.usedSites[k] = true
 }
 
 func (g *Gen) refusef(f string, a ...interface{}) {
@@ -560,7 +569,10 @@ func (g *Gen) storeAt(st *State, ref string, t types.Type, tag string, val strin
 // modifies clause names no location in this heap tag, the write must target an object allocated after entry
 // (local obligation, the per-write form of the frame condition); the new version then agrees with the old one on
 // all pre-existing objects.
-func (g *Gen) frameWrite(st *State, tag, rbTerm, cur, nw string) {
+func (g *Gen) frameWrite(st *State, tag, rbTerm, cur, nw string) { g.frameWriteX(st, tag, rbTerm, cur, nw, "") }
+
+// frameWriteX: exempt is a condition under which nothing is written at all (an empty slice).
+func (g *Gen) frameWriteX(st *State, tag, rbTerm, cur, nw, exempt string) {
 	if g.ct == nil || g.ct.ModAll || g.ct.ModHeap || g.entry == nil || g.oldFrontier == "" {
 		return
 	}
@@ -571,6 +583,9 @@ func (g *Gen) frameWrite(st *State, tag, rbTerm, cur, nw string) {
 		return // the tag has declared modifiable locations: checked by the whole-function frame obligation
 	}
 	goal := fmt.Sprintf("(>= %s %s)", rbTerm, g.oldFrontier)
+	if exempt != "" {
+		goal = fmt.Sprintf("(or %s %s)", exempt, goal)
+	}
 	o := g.addObl("frame-write", tag, st, goal, token.NoPos)
 	o.Text = "write to a heap location outside the modifies clause must target an object allocated by the function"
 	g.sc.assume(st.pc, goal)
@@ -852,6 +867,12 @@ func (g *Gen) Run() {
 		}
 	}
 	g.finishEnsures()
+	// every site contract written for this function must have matched a call (a silently unmatched one proves nothing)
+	for k, ct := range g.eng.db.Contracts {
+		if ct.Site && (strings.HasPrefix(k, "sitereq:"+g.fn.String()+":") || strings.HasPrefix(k, "site:"+g.fn.String()+":")) && !g.usedSites[k] {
+			g.refusef("site contract %s matches no call in the function", k)
+		}
+	}
 }
 
 func (g *Gen) rpo() []*ssa.BasicBlock {
